@@ -57,7 +57,7 @@ def bulkPop : Nat → Heap → Nat → Option (Heap × Nat)
     | some (_, none) => none
     | some (h', some e) => bulkPop k h' ((ck * 1000003 + (e.id - 10000) % digestP) % digestP)
 
-def hstep (h : Heap) (ws : List String) : Heap × String :=
+def hstep1 (h : Heap) (ws : List String) : Heap × String :=
   let bad := (h, "STOP bad-op")
   let fin (h' : Heap) (r : String) (full : Bool := false) : Heap × String :=
     (h', r ++ " | " ++ dumpHeap h' full)
@@ -97,4 +97,15 @@ def hstep (h : Heap) (ws : List String) : Heap × String :=
     | none => bad
   | _ => bad
 
-def main : IO Unit := runArea { init := Heap.empty, step := hstep }
+/-- the heap and its swap partner (`cstl_heap_swap`: the two objects trade places) -/
+def hstep (s : Heap × Heap) (ws : List String) : (Heap × Heap) × String :=
+  match ws with
+  | ["swap"] => ((s.2, s.1), "ok | " ++ dumpHeap s.2 false)
+  -- `alt`: the harness addresses the other OBJECT from now on (no library call); in the model the
+  -- two heaps are values, so this is the same exchange of the pair
+  | ["alt"] => ((s.2, s.1), "ok | " ++ dumpHeap s.2 false)
+  | _ =>
+    let r := hstep1 s.1 ws
+    ((r.1, s.2), r.2)
+
+def main : IO Unit := runArea { init := (Heap.empty, Heap.empty), step := hstep }
